@@ -1,423 +1,7 @@
-import Orx.Generated.Arith
-import Orx.KS
-/-! # The translated Rust functions compute what the model says (for every machine-word input)
-
-`Generated/Arith.lean` is produced from `/repo/src` by `tools/rs2lean.py` on every run. This file states, for each
-translated function of the four known-size kinds and their buffered pullers, that for **all** inputs
-
-* it does not fault: no `usize` overflow (so debug and release builds agree), no slice index out of range, no
-  violated precondition of `ptr::add` / `Taken::new` / `slice_from_raw_parts_mut`, no failed assertion;
-* it performs exactly one atomic access on the position counter — the one the model's `Atom` performs, with the
-  ordering the trace shows — and leaves the counter at `Atom.next`;
-* it returns the value the model computes (`KS.pullRange`, `KS.lenOf`, the clamped cursor).
-
-A change of the arithmetic in the source changes the generated definition and breaks the proof here. -/
-namespace Orx.GenThms
-open Orx Orx.RS Orx.Gen Orx.KS
-
-/-- the chunk a pull returns for the model's position interval `[b, e)`: `None` iff empty -/
-def chunkOf (r : Nat × Nat) : Option (NextChunk Span) :=
-  if r.1 = r.2 then none else some ⟨r.1, ⟨r.1, r.2⟩⟩
-
-/-- the same with the values of a range starting at `start` -/
-def chunkOfR (start : Nat) (r : Nat × Nat) : Option (NextChunk Span) :=
-  if r.1 = r.2 then none else some ⟨r.1, ⟨start + r.1, start + r.2⟩⟩
-
-def st (c : Nat) (evs : List Ev) (dr : List (Nat × Nat)) : St := ⟨c, evs, dr⟩
-
-def faa (c n : Nat) : Ev := .faa (.ctr 0) .acqrel c n
-
-theorem endIdx_bounds (b n len : Nat) (h : b ≤ len) :
-    b ≤ max (min (satAdd b n) len) b ∧ max (min (satAdd b n) len) b ≤ len := by omega
-
-theorem endIdx_gt (b n len : Nat) (h : b < len) (hn : 0 < n) (hl : len < W) : b < max (min (satAdd b n) len) b := by
-  unfold satAdd MAXW; unfold W at hl; split <;> omega
-
-/-! ## slice -/
-
-def slice (len : Nat) : SliceSelf := ⟨⟨len⟩, {}⟩
-
-theorem slice_initial_len (len : Nat) (s : St) : Slice.initial_len (slice len) s = .ok len s := rfl
-
-theorem slice_progress (len n c : Nat) (evs dr) :
-    Slice.progress_and_get_begin_idx (slice len) n (st c evs dr) =
-      .ok (if c < len then some c else none) (st (wrapAdd c n) (evs ++ [faa c n]) dr) := by
-  simp only [Slice.progress_and_get_begin_idx, Slice.counter, Slice.initial_len, Counter.fetch_and_add, slice, st, faa,
-    bind, M.bind, pure, M.pure, m_fetch_add, m_len, MLen.m_len, m_cmp]
-  by_cases h1 : c < len
-  · simp [h1, M.pure]
-  · by_cases h2 : c = len <;> simp [h1, h2, M.pure]
-
-theorem slice_fetch_n (len n c : Nat) (evs dr) :
-    Slice.fetch_n (slice len) n (st c evs dr) =
-      .ok (chunkOf (pullRange len c n)) (st (wrapAdd c n) (evs ++ [faa c n]) dr) := by
-  simp only [Slice.fetch_n, slice_progress, slice_initial_len, bind, M.bind, pure, M.pure,
-    m_unwrap_or, m_saturating_add, m_min, m_max, m_cmp, m_index_range, m_iter, MIter.m_iter, chunkOf, pullRange]
-  simp only [slice]
-  by_cases h1 : c < len
-  · have hb := endIdx_bounds c n len (by omega)
-    simp only [h1, ↓reduceIte, Option.getD_some]
-    by_cases hs : c = max (min (satAdd c n) len) c
-    · have : ¬ c < max (min (satAdd c n) len) c := by omega
-      simp [← hs, M.pure]
-    · have : c < max (min (satAdd c n) len) c := by omega
-      simp [this, hs, hb, M.pure, M.bind]
-  · have hm : max (min (satAdd len n) len) len = len := by omega
-    simp [h1, hm, M.pure]
-
-theorem slice_fetch_one (len c : Nat) (evs dr) :
-    Slice.fetch_one (slice len) (st c evs dr) =
-      .ok (if c < len then some ⟨c, c⟩ else none) (st (wrapAdd c 1) (evs ++ [faa c 1]) dr) := by
-  simp only [Slice.fetch_one, Slice.counter, Slice.get, Counter.fetch_and_increment, slice, st, faa,
-    bind, M.bind, pure, M.pure, m_fetch_add, m_get, m_map, MMap.m_map]
-  by_cases h1 : c < len <;> simp [h1, M.pure, M.bind]
-
-theorem slice_early_exit (len c : Nat) (evs dr) :
-    Slice.early_exit (slice len) (st c evs dr) = .ok () (st len (evs ++ [.st (.ctr 0) .seqcst len]) dr) := by
-  simp [Slice.early_exit, Slice.counter, Counter.store, slice, st, bind, M.bind, pure, M.pure, m_store, m_len, MLen.m_len]
-
-theorem slice_try_get_len (len c : Nat) (evs dr) :
-    Slice.try_get_len (slice len) (st c evs dr) =
-      .ok (some (lenOf len c)) (st c (evs ++ [.ld (.ctr 0) .acquire c]) dr) := by
-  simp only [Slice.try_get_len, Slice.counter, Slice.initial_len, Counter.current, slice, st, lenOf,
-    bind, M.bind, pure, M.pure, m_load, m_len, MLen.m_len, m_cmp, op_sub]
-  by_cases h1 : c < len
-  · have : c ≤ len := by omega
-    simp [h1, this, M.pure, M.bind]
-  · by_cases h2 : c = len <;> simp [h1, h2, M.pure, M.bind]
-
-theorem slice_into_seq_iter (len c : Nat) (evs dr) :
-    Slice.into_seq_iter (slice len) (st c evs dr) =
-      .ok ⟨min c len, len⟩ (st c (evs ++ [.ld (.ctr 0) .acquire c]) dr) := by
-  simp [Slice.into_seq_iter, Slice.counter, Counter.current, slice, st, bind, M.bind, pure, M.pure, m_load,
-    m_iter, MIter.m_iter, m_skip]
-
-/-! ## vec -/
-
-def vec (len : Nat) : VecSelf := ⟨⟨len⟩, len, {}⟩
-
-theorem vec_initial_len (len : Nat) (s : St) : Vec.initial_len (vec len) s = .ok len s := rfl
-
-theorem vec_progress (len n c : Nat) (evs dr) :
-    Vec.progress_and_get_begin_idx (vec len) n (st c evs dr) =
-      .ok (if c < len then some c else none) (st (wrapAdd c n) (evs ++ [faa c n]) dr) := by
-  simp only [Vec.progress_and_get_begin_idx, Vec.counter, Vec.initial_len, Counter.fetch_and_add, vec, st, faa,
-    bind, M.bind, pure, M.pure, m_fetch_add, m_cmp]
-  by_cases h1 : c < len
-  · simp [h1, M.pure]
-  · by_cases h2 : c = len <;> simp [h1, h2, M.pure]
-
-/-- `take_slice(b, n)` for a begin index inside the vector: no fault (the subtraction does not underflow, the pointer
-stays in the allocation, `Taken::new` gets a valid span), and the span is `[b, min(b + n, len))` -/
-theorem vec_take_slice (len b n : Nat) (hb : b ≤ len) (hl : len < W) (s : St) :
-    Vec.take_slice (vec len) b n s = .ok ⟨b, min (satAdd b n) len⟩ s := by
-  have h1 : b ≤ min (satAdd b n) len := by unfold satAdd MAXW; unfold W at hl; split <;> omega
-  have h2 : b + (min (satAdd b n) len - b) ≤ len := by omega
-  have h3 : b + (min (satAdd b n) len - b) = min (satAdd b n) len := by omega
-  have h4 : min (satAdd b n) len ≤ len := by omega
-  simp [h4, Vec.take_slice, vec, bind, M.bind, pure, M.pure, m_saturating_add, m_len, MLen.m_len, m_min, op_sub,
-    m_as_mut_ptr, MAsMutPtr.m_as_mut_ptr, m_add, Taken_new, h1, hb, h2, h3]
-
-theorem vec_fetch_n (len n c : Nat) (evs dr) (hl : len < W) :
-    Vec.fetch_n (vec len) n (st c evs dr) =
-      .ok (chunkOf (pullRange len c n)) (st (wrapAdd c n) (evs ++ [faa c n]) dr) := by
-  simp only [Vec.fetch_n, vec_progress, vec_initial_len, bind, M.bind, pure, M.pure,
-    m_unwrap_or, m_saturating_add, m_min, m_max, m_cmp, chunkOf, pullRange]
-  by_cases h1 : c < len
-  · have hb := endIdx_bounds c n len (by omega)
-    simp only [h1, ↓reduceIte, Option.getD_some]
-    by_cases hs : c = max (min (satAdd c n) len) c
-    · have : ¬ c < max (min (satAdd c n) len) c := by omega
-      simp [← hs, M.pure]
-    · have hlt : c < max (min (satAdd c n) len) c := by omega
-      have hm : max (min (satAdd c n) len) c = min (satAdd c n) len := by omega
-      have hlt' : c < min (satAdd c n) len := by omega
-      have hs' : ¬ c = min (satAdd c n) len := by omega
-      simp [hm, hlt', hs', M.pure, M.bind, vec_take_slice len c n (by omega) hl]
-  · have hm : max (min (satAdd len n) len) len = len := by omega
-    simp [h1, hm, M.pure]
-
-theorem vec_fetch_one (len c : Nat) (evs dr) :
-    Vec.fetch_one (vec len) (st c evs dr) =
-      .ok (if c < len then some ⟨c, c⟩ else none) (st (wrapAdd c 1) (evs ++ [faa c 1]) dr) := by
-  simp only [Vec.fetch_one, Vec.counter, Vec.get, Counter.fetch_and_increment, vec, st, faa,
-    bind, M.bind, pure, M.pure, m_fetch_add, m_cmp, m_take_one, MTakeOne.m_take_one, m_map, MMap.m_map]
-  by_cases h1 : c < len
-  · simp [h1, M.pure, M.bind]
-  · by_cases h2 : c = len <;> simp [h1, h2, M.pure, M.bind]
-
-/-- `early_exit` of a consumed vector: one `swap(len)`, and exactly the span `[min(c, len), len)` is destroyed in place -/
-theorem vec_early_exit (len c : Nat) (evs dr) :
-    Vec.early_exit (vec len) (st c evs dr) =
-      .ok () (st len (evs ++ [.swp (.ctr 0) .acqrel c len]) (dr ++ [(min c len, len)])) := by
-  have h1 : min c len ≤ len := by omega
-  have h2 : min c len + (len - min c len) = len := by omega
-  simp [Vec.early_exit, Vec.counter, Counter.swap, vec, st, bind, M.bind, pure, M.pure, m_swap, m_min, op_sub,
-    m_as_mut_ptr, MAsMutPtr.m_as_mut_ptr, m_add, ptr_slice_from_raw_parts_mut, ptr_drop_in_place, h1, h2]
-
-theorem vec_try_get_len (len c : Nat) (evs dr) :
-    Vec.try_get_len (vec len) (st c evs dr) =
-      .ok (some (lenOf len c)) (st c (evs ++ [.ld (.ctr 0) .acquire c]) dr) := by
-  simp only [Vec.try_get_len, Vec.counter, Vec.initial_len, Counter.current, vec, st, lenOf,
-    bind, M.bind, pure, M.pure, m_load, m_cmp, op_sub]
-  by_cases h1 : c < len
-  · have : c ≤ len := by omega
-    simp [h1, this, M.pure, M.bind]
-  · by_cases h2 : c = len <;> simp [h1, h2, M.pure, M.bind]
-
-/-! ## array -/
-
-def arr (len : Nat) : ArrSelf := ⟨⟨len⟩, {}⟩
-
-theorem arr_initial_len (len : Nat) (s : St) : Arr.initial_len len (arr len) s = .ok len s := rfl
-
-theorem arr_progress (len n c : Nat) (evs dr) :
-    Arr.progress_and_get_begin_idx len (arr len) n (st c evs dr) =
-      .ok (if c < len then some c else none) (st (wrapAdd c n) (evs ++ [faa c n]) dr) := by
-  simp only [Arr.progress_and_get_begin_idx, Arr.counter, Arr.initial_len, Counter.fetch_and_add, arr, st, faa,
-    bind, M.bind, pure, M.pure, m_fetch_add, m_cmp]
-  by_cases h1 : c < len
-  · simp [h1, M.pure]
-  · by_cases h2 : c = len <;> simp [h1, h2, M.pure]
-
-theorem arr_take_slice (len b n : Nat) (hb : b ≤ len) (hl : len < W) (s : St) :
-    Arr.take_slice len (arr len) b n s = .ok ⟨b, min (satAdd b n) len⟩ s := by
-  have h1 : b ≤ min (satAdd b n) len := by unfold satAdd MAXW; unfold W at hl; split <;> omega
-  have h2 : b + (min (satAdd b n) len - b) ≤ len := by omega
-  have h3 : b + (min (satAdd b n) len - b) = min (satAdd b n) len := by omega
-  have h4 : min (satAdd b n) len ≤ len := by omega
-  simp [h4, Arr.take_slice, arr, bind, M.bind, pure, M.pure, m_saturating_add, m_len, MLen.m_len, m_min, op_sub,
-    m_as_mut_ptr, MAsMutPtr.m_as_mut_ptr, m_add, Taken_new, h1, hb, h2, h3]
-
-theorem arr_fetch_n (len n c : Nat) (evs dr) (hl : len < W) :
-    Arr.fetch_n len (arr len) n (st c evs dr) =
-      .ok (chunkOf (pullRange len c n)) (st (wrapAdd c n) (evs ++ [faa c n]) dr) := by
-  simp only [Arr.fetch_n, arr_progress, arr_initial_len, bind, M.bind, pure, M.pure,
-    m_unwrap_or, m_saturating_add, m_min, m_max, m_cmp, chunkOf, pullRange]
-  by_cases h1 : c < len
-  · have hb := endIdx_bounds c n len (by omega)
-    simp only [h1, ↓reduceIte, Option.getD_some]
-    by_cases hs : c = max (min (satAdd c n) len) c
-    · have : ¬ c < max (min (satAdd c n) len) c := by omega
-      simp [← hs, M.pure]
-    · have hlt : c < max (min (satAdd c n) len) c := by omega
-      have hm : max (min (satAdd c n) len) c = min (satAdd c n) len := by omega
-      have hlt' : c < min (satAdd c n) len := by omega
-      have hs' : ¬ c = min (satAdd c n) len := by omega
-      simp [hm, hlt', hs', M.pure, M.bind, arr_take_slice len c n (by omega) hl]
-  · have hm : max (min (satAdd len n) len) len = len := by omega
-    simp [h1, hm, M.pure]
-
-theorem arr_fetch_one (len c : Nat) (evs dr) :
-    Arr.fetch_one len (arr len) (st c evs dr) =
-      .ok (if c < len then some ⟨c, c⟩ else none) (st (wrapAdd c 1) (evs ++ [faa c 1]) dr) := by
-  simp only [Arr.fetch_one, Arr.counter, Arr.get, Counter.fetch_and_increment, arr, st, faa,
-    bind, M.bind, pure, M.pure, m_fetch_add, m_cmp, m_take_one, MTakeOne.m_take_one, m_map, MMap.m_map]
-  by_cases h1 : c < len
-  · simp [h1, M.pure, M.bind]
-  · by_cases h2 : c = len <;> simp [h1, h2, M.pure, M.bind]
-
-theorem arr_early_exit (len c : Nat) (evs dr) :
-    Arr.early_exit len (arr len) (st c evs dr) =
-      .ok () (st len (evs ++ [.swp (.ctr 0) .acqrel c len]) (dr ++ [(min c len, len)])) := by
-  have h1 : min c len ≤ len := by omega
-  have h2 : min c len + (len - min c len) = len := by omega
-  simp [Arr.early_exit, Arr.counter, Counter.swap, arr, st, bind, M.bind, pure, M.pure, m_swap, m_min, op_sub,
-    m_as_mut_ptr, MAsMutPtr.m_as_mut_ptr, m_add, ptr_slice_from_raw_parts_mut, ptr_drop_in_place, h1, h2]
-
-theorem arr_try_get_len (len c : Nat) (evs dr) :
-    Arr.try_get_len len (arr len) (st c evs dr) =
-      .ok (some (lenOf len c)) (st c (evs ++ [.ld (.ctr 0) .acquire c]) dr) := by
-  simp only [Arr.try_get_len, Arr.counter, Arr.initial_len, Counter.current, arr, st, lenOf,
-    bind, M.bind, pure, M.pure, m_load, m_cmp, op_sub]
-  by_cases h1 : c < len
-  · have : c ≤ len := by omega
-    simp [h1, this, M.pure, M.bind]
-  · by_cases h2 : c = len <;> simp [h1, h2, M.pure, M.bind]
-
-/-! ## range -/
-
-def range (a b : Nat) : RangeSelf := ⟨⟨a, b⟩, {}⟩
-
-theorem range_initial_len (a b : Nat) (s : St) : Range.initial_len (range a b) s = .ok (b - a) s := rfl
-
-theorem range_progress (a b n c : Nat) (evs dr) :
-    Range.progress_and_get_begin_idx (range a b) n (st c evs dr) =
-      .ok (if c < b - a then some c else none) (st (wrapAdd c n) (evs ++ [faa c n]) dr) := by
-  simp only [Range.progress_and_get_begin_idx, Range.counter, range_initial_len, Counter.fetch_and_add, st, faa,
-    bind, M.bind, pure, M.pure, m_fetch_add, m_cmp]
-  simp only [range]
-  by_cases h1 : c < b - a
-  · simp [h1, M.pure]
-  · by_cases h2 : c = b - a <;> simp [h1, h2, M.pure]
-
-/-- **`fetch_n` of a range, every range (also empty, inverted, ending at `usize::MAX`) and every chunk size**: no
-overflow in `begin_idx + start`, no underflow in `end_value - start`; the chunk holds exactly the values
-`start + b .. start + e` for the model's position interval `[b, e)` — never a value outside the range. -/
-theorem range_fetch_n (a b n c : Nat) (evs dr) (ha : a < W) (hb : b < W) :
-    Range.fetch_n (range a b) n (st c evs dr) =
-      .ok (chunkOfR a (pullRange (b - a) c n)) (st (wrapAdd c n) (evs ++ [faa c n]) dr) := by
-  simp only [Range.fetch_n, range_progress, range_initial_len, bind, M.bind, pure, M.pure,
-    m_unwrap_or, m_into, m_saturating_add, m_min, m_cmp, op_add, op_sub, m_range, m_map, MMap.m_map, chunkOfR, pullRange]
-  simp only [range]
-  by_cases h1 : c < b - a
-  · -- in range: begin value `c + a < b`
-    have hv : c + a < W := by omega
-    have hlt : c + a < b := by omega
-    have hsat : c + a ≤ satAdd (c + a) n := by unfold satAdd MAXW; unfold W at hv; split <;> omega
-    have hsat' : satAdd c n + a ≥ min (satAdd (c + a) n) b ∨ True := Or.inr trivial
-    have hge : a ≤ min (satAdd (c + a) n) b := by omega
-    have hend : min (satAdd (c + a) n) b - a = max (min (satAdd c n) (b - a)) c := by
-      unfold satAdd MAXW; unfold W at *
-      by_cases q1 : c + a + n < 18446744073709551616 <;> by_cases q2 : c + n < 18446744073709551616 <;>
-        simp only [q1, q2, ↓reduceIte] <;> omega
-    simp only [h1, ↓reduceIte, Option.getD_some, hv, hlt, M.pure, M.bind, hge, hend]
-    by_cases hs : c = max (min (satAdd c n) (b - a)) c
-    · have : ¬ c < max (min (satAdd c n) (b - a)) c := by omega
-      simp [← hs, M.pure]
-    · have hlt2 : c < max (min (satAdd c n) (b - a)) c := by omega
-      have e1 : a + c = c + a := by omega
-      have e2 : a + max (min (satAdd c n) (b - a)) c = min (satAdd (c + a) n) b := by omega
-      simp [hlt2, hs, e1, e2, M.pure, M.bind]
-  · -- at or past the end (also: empty and inverted ranges)
-    have hv : b - a + a < W := by omega
-    have hm : max (min (satAdd (b - a) n) (b - a)) (b - a) = b - a := by omega
-    have hnl : ¬ b - a + a < b := by omega
-    have hle : a ≤ b - a + a := by omega
-    have he : b - a + a - a = b - a := by omega
-    simp only [h1, ↓reduceIte, Option.getD_none, hv, M.pure, M.bind, hnl]
-    by_cases h2 : b - a + a = b
-    · have hab : a ≤ b := by omega
-      simp [h2, hab, hm, M.pure, M.bind]
-    · have hz : b - a = 0 := by omega
-      have hab : ¬ a < b := by omega
-      have hne : ¬ a = b := by omega
-      simp [hz, hab, hne, M.pure, M.bind]
-
-theorem range_fetch_one (a b c : Nat) (evs dr) (ha : a < W) (hb : b < W) :
-    Range.fetch_one (range a b) (st c evs dr) =
-      .ok (if c < b - a then some ⟨c, a + c⟩ else none) (st (wrapAdd c 1) (evs ++ [faa c 1]) dr) := by
-  simp only [Range.fetch_one, Range.counter, Range.get, range_initial_len, Counter.fetch_and_increment, st, faa,
-    bind, M.bind, pure, M.pure, m_fetch_add, m_cmp, m_into, op_add, m_map, MMap.m_map]
-  simp only [range]
-  by_cases h1 : c < b - a
-  · have : a + c < W := by omega
-    simp [h1, this, M.pure, M.bind]
-  · by_cases h2 : c = b - a <;> simp [h1, h2, M.pure, M.bind]
-
-theorem range_early_exit (a b c : Nat) (evs dr) :
-    Range.early_exit (range a b) (st c evs dr) = .ok () (st (b - a) (evs ++ [.st (.ctr 0) .seqcst (b - a)]) dr) := by
-  simp only [Range.early_exit, Range.counter, range_initial_len, Counter.store, st, bind, M.bind, pure, M.pure, m_store]
-  simp [range]
-
-theorem range_try_get_len (a b c : Nat) (evs dr) :
-    Range.try_get_len (range a b) (st c evs dr) =
-      .ok (some (lenOf (b - a) c)) (st c (evs ++ [.ld (.ctr 0) .acquire c]) dr) := by
-  simp only [Range.try_get_len, Range.counter, range_initial_len, Counter.current, st, lenOf,
-    bind, M.bind, pure, M.pure, m_load, m_cmp, op_sub]
-  simp only [range]
-  by_cases h1 : c < b - a
-  · have : c ≤ b - a := by omega
-    simp [h1, this, M.pure, M.bind]
-  · by_cases h2 : c = b - a <;> simp [h1, h2, M.pure, M.bind]
-
-/-- `into_seq_iter` of a range: the remainder starts at `start + min(counter, len)` — computed without overflow —
-and ends at `end`: exactly the undelivered values, never one outside the range -/
-theorem range_into_seq_iter (a b c : Nat) (evs dr) (ha : a < W) (hb : b < W) :
-    Range.into_seq_iter (range a b) (st c evs dr) =
-      .ok ⟨a + min c (b - a), b⟩ (st c (evs ++ [.ld (.ctr 0) .acquire c]) dr) := by
-  simp only [Range.into_seq_iter, Range.counter, range_initial_len, Counter.current, st,
-    bind, M.bind, pure, M.pure, m_load, m_min, m_into, op_add, m_range]
-  simp only [range]
-  have : a + min c (b - a) < W := by omega
-  simp [this, M.pure, M.bind]
-
-/-! ## buffered chunk iterators (`BufferedIter::next` = `progress_and_get_begin_idx(chunk_size)` then `pull`) -/
-
-/-- what `BufferedIter::next` returns when the counter read `c`: the model's `bufnext` -/
-def bufChunk (len c n : Nat) : Option (NextChunk Span) :=
-  if c < len then some ⟨c, ⟨c, (pullRange len c n).2⟩⟩ else none
-
-def bufChunkR (start len c n : Nat) : Option (NextChunk Span) :=
-  if c < len then some ⟨c, ⟨start + c, start + (pullRange len c n).2⟩⟩ else none
-
-theorem slice_buffered_next (len n c : Nat) (evs dr) :
-    BufferedIterSlice.next ⟨⟨n⟩, slice len⟩ (st c evs dr) =
-      .ok (bufChunk len c n) (st (wrapAdd c n) (evs ++ [faa c n]) dr) := by
-  simp only [BufferedIterSlice.next, BufSlice.chunk_size, slice_progress, bind, M.bind, pure, M.pure, m_and_then, bufChunk, pullRange]
-  by_cases h1 : c < len
-  · have hb := endIdx_bounds c n len (by omega)
-    simp [h1, BufSlice.pull, Slice.as_slice, slice, bind, M.bind, pure, M.pure, m_len, MLen.m_len, m_cmp,
-      m_saturating_add, m_min, m_max, m_index_range, m_iter, MIter.m_iter, m_map, MMap.m_map, hb]
-  · simp [h1, M.pure]
-
-theorem vec_buffered_next (len n c : Nat) (evs dr) (hl : len < W) :
-    BufferedIterVec.next ⟨⟨n⟩, vec len⟩ (st c evs dr) =
-      .ok (bufChunk len c n) (st (wrapAdd c n) (evs ++ [faa c n]) dr) := by
-  simp only [BufferedIterVec.next, BufVec.chunk_size, vec_progress, bind, M.bind, pure, M.pure, m_and_then, bufChunk, pullRange]
-  by_cases h1 : c < len
-  · have hb := endIdx_bounds c n len (by omega)
-    have hm : max (min (satAdd c n) len) c = min (satAdd c n) len := by
-      have : c ≤ min (satAdd c n) len := by unfold satAdd MAXW; unfold W at hl; split <;> omega
-      omega
-    simp [h1, BufVec.pull, bind, M.bind, pure, M.pure, m_map, MMap.m_map, vec_take_slice len c n (by omega) hl, hm]
-  · simp [h1, M.pure]
-
-theorem arr_buffered_next (len n c : Nat) (evs dr) (hl : len < W) :
-    BufferedIterArr.next len ⟨⟨n⟩, arr len⟩ (st c evs dr) =
-      .ok (bufChunk len c n) (st (wrapAdd c n) (evs ++ [faa c n]) dr) := by
-  simp only [BufferedIterArr.next, BufArr.chunk_size, arr_progress, bind, M.bind, pure, M.pure, m_and_then, bufChunk, pullRange]
-  by_cases h1 : c < len
-  · have hb := endIdx_bounds c n len (by omega)
-    have hm : max (min (satAdd c n) len) c = min (satAdd c n) len := by
-      have : c ≤ min (satAdd c n) len := by unfold satAdd MAXW; unfold W at hl; split <;> omega
-      omega
-    simp [h1, BufArr.pull, bind, M.bind, pure, M.pure, m_map, MMap.m_map, arr_take_slice len c n (by omega) hl, hm]
-  · simp [h1, M.pure]
-
-theorem range_buffered_next (a b n c : Nat) (evs dr) (ha : a < W) (hb : b < W) :
-    BufferedIterRange.next ⟨⟨n⟩, range a b⟩ (st c evs dr) =
-      .ok (bufChunkR a (b - a) c n) (st (wrapAdd c n) (evs ++ [faa c n]) dr) := by
-  simp only [BufferedIterRange.next, BufRange.chunk_size, range_progress, bind, M.bind, pure, M.pure, m_and_then, bufChunkR, pullRange]
-  by_cases h1 : c < b - a
-  · have hv : c + a < W := by omega
-    have hlt : c + a < b := by omega
-    have hend : min (satAdd (c + a) n) b = a + max (min (satAdd c n) (b - a)) c := by
-      unfold satAdd MAXW; unfold W at *
-      by_cases q1 : c + a + n < 18446744073709551616 <;> by_cases q2 : c + n < 18446744073709551616 <;>
-        simp only [q1, q2, ↓reduceIte] <;> omega
-    have e1 : a + c = c + a := by omega
-    simp [h1, BufRange.pull, Range.range, range, bind, M.bind, pure, M.pure, m_into, op_add, m_cmp, m_saturating_add,
-      m_min, m_range, m_map, MMap.m_map, hv, hlt, hend, e1]
-  · simp [h1, M.pure]
-
-/-- a buffered chunk is never empty: chunk size `≥ 1` (asserted by `BufferedIter::new`) and a counter below the length -/
-theorem buffered_chunk_nonempty (len c n : Nat) (h : c < len) (hn : 0 < n) (hl : len < W) :
-    c < (pullRange len c n).2 := by
-  simp only [pullRange, h, ↓reduceIte]
-  exact endIdx_gt c n len h hn hl
-
-/-- `BufferedIter::new` panics (assertion) exactly for chunk size 0 -/
-theorem buffered_new_zero_panics (s : St) : BufferedIterNew.new ⟨0⟩ () s = .fail .assertion := by
-  simp [BufferedIterNew.new, BufAny.chunk_size, bind, M.bind, pure, M.pure, op_gt, m_assert, M.failWith]
-
-theorem buffered_new_positive (n : Nat) (h : 0 < n) (s : St) :
-    ∃ r, BufferedIterNew.new ⟨n⟩ () s = .ok r s ∧ r.buffered_iter.chunk_size = n := by
-  simp [BufferedIterNew.new, BufAny.chunk_size, bind, M.bind, pure, M.pure, op_gt, m_assert, h]
-
-/-! ## the public entry points are the functions above -/
-
-theorem slice_next_chunk (len n : Nat) : Slice.next_chunk (slice len) n = Slice.fetch_n (slice len) n := rfl
-theorem slice_next_id_and_value (len : Nat) : Slice.next_id_and_value (slice len) = Slice.fetch_one (slice len) := rfl
-theorem slice_skip_to_end (len : Nat) : Slice.skip_to_end (slice len) = Slice.early_exit (slice len) := rfl
-theorem vec_next_chunk (len n : Nat) : Vec.next_chunk (vec len) n = Vec.fetch_n (vec len) n := rfl
-theorem vec_next_id_and_value (len : Nat) : Vec.next_id_and_value (vec len) = Vec.fetch_one (vec len) := rfl
-theorem vec_skip_to_end (len : Nat) : Vec.skip_to_end (vec len) = Vec.early_exit (vec len) := rfl
-theorem arr_next_chunk (len n : Nat) : Arr.next_chunk len (arr len) n = Arr.fetch_n len (arr len) n := rfl
-theorem arr_next_id_and_value (len : Nat) : Arr.next_id_and_value len (arr len) = Arr.fetch_one len (arr len) := rfl
-theorem arr_skip_to_end (len : Nat) : Arr.skip_to_end len (arr len) = Arr.early_exit len (arr len) := rfl
-theorem range_next_chunk (a b n : Nat) : Range.next_chunk (range a b) n = Range.fetch_n (range a b) n := rfl
-theorem range_next_id_and_value (a b : Nat) : Range.next_id_and_value (range a b) = Range.fetch_one (range a b) := rfl
-theorem range_skip_to_end (a b : Nat) : Range.skip_to_end (range a b) = Range.early_exit (range a b) := rfl
-
-end Orx.GenThms
+import Orx.GenThms.Slice
+import Orx.GenThms.Vec
+import Orx.GenThms.Arr
+import Orx.GenThms.Range
+import Orx.GenThms.New
+import Orx.GenThms.Adapt
+/-! All theorems about the translated Rust functions (`Generated/Arith*.lean`), one module per group of source files. -/
